@@ -1,10 +1,13 @@
 #!/bin/bash
-# Offline setup: Hypothesis into /venv (no-op when present) and the Rust harness binary.
+# Offline setup: Hypothesis into /venv (no-op when present), atheris into ./.deps, and the Rust harness binary.
 set -e
 HERE="$(cd "$(dirname "${BASH_SOURCE[0]}")" && pwd)"
 cd "$HERE"
 /venv/bin/python -c "import hypothesis" 2>/dev/null || \
   /venv/bin/pip install --no-index --find-links /opt/veriftools/wheels hypothesis
+# atheris (coverage-guided driver, vp_harness/covfuzz.py) goes into a private, git-ignored target directory
+PYTHONPATH="$HERE/.deps" /venv/bin/python -c "import atheris" 2>/dev/null || \
+  /venv/bin/pip install --no-index --find-links /opt/veriftools/wheels --target "$HERE/.deps" atheris
 export CARGO_NET_OFFLINE=true
 (cd rust && cargo build --offline --release 2>&1 | tail -3)
 echo "setup ok"
